@@ -1,5 +1,5 @@
 (** C21 — OS readiness interest matches outstanding waits. Statements only. *)
-From OCV Require Import Base.Prelude Net.Selector Net.SelectorOracle Net.SelectorProofs.
+From OCV Require Import Base.Prelude Net.Selector Net.SelectorOracle Net.SelectorProofs Net.SelectorErase.
 Open Scope Z_scope.
 
 (** one poller: after every step of every history of waits, deletions, shutdowns, closes, reuses of a
@@ -28,6 +28,13 @@ Theorem C21_oracle_sound : forall nfd rows wr ww, table_ok nfd rows wr ww = true
   forall fd, 0 <= fd < nfd -> row_r rows fd = zmem fd wr /\ row_w rows fd = zmem fd ww.
 Proof. exact table_ok_sound. Qed.
 
+(** any number of pollers: when (or whether) the pollers' own threads process readiness events has no
+    influence on any result or on any OS-side interest table: the observations of a history with
+    event deliveries interleaved anywhere are those of the history without them *)
+Theorem C21_events_do_not_matter : forall pollers nfd ops,
+  strip_obs ops (run_C21 pollers nfd ops) = run_C21 pollers nfd (strip ops).
+Proof. exact events_do_not_matter. Qed.
+
 Example C21_nonvacuous :
   let ops := [WaitR 0; WaitW 0; WaitW 1; DelR 0; WaitR 1; ShutWr 1; Close 0; Reopen 0; WaitR 0; DelE 1;
               WaitR 2; Close 2; WaitR 2; Deliver 1 true true; DelW 0] in
@@ -46,3 +53,4 @@ Print Assumptions C21_holds_outside.
 Print Assumptions C21_refuted_records_shared_across_pollers.
 Print Assumptions C21_reuse_clean.
 Print Assumptions C21_oracle_sound.
+Print Assumptions C21_events_do_not_matter.
